@@ -132,6 +132,11 @@ def check_pca(run, A):
                             if is_call_to(num, 'numpy.sqrt'):
                                 tr = call_arg(num, 0)
                                 okn = is_call_to(tr, 'numpy.trace') and {const_val(call_arg(tr, None, 'axis1')), const_val(call_arg(tr, None, 'axis2'))} == {-1, -2} and derives(tr, 'target_psd_matrix')
+                                if is_call_to(tr, 'numpy.trace') and derives(tr, 'target_psd_matrix') and okd and any(
+                                        call_arg(tr, None, k_) is not None and const_val(call_arg(tr, None, k_)) is NOVAL for k_ in ('axis1', 'axis2')):
+                                    # the axes of the trace are computed (from the rank of another array): not a deviation, not decided
+                                    run.unresolved('R-ROLE', "get_pca_vector['trace']: sqrt(tr Phi) / ||v||", fn.loc(b.node), 'the axes of the trace are not literals')
+                                    continue
                                 run.check(okn and okd, 'R-ROLE', "get_pca_vector['trace']: sqrt(tr Phi) / ||v||", fn.loc(b.node), '', 'trace scaling is not sqrt(trace over the last two axes) / norm(axis=-1)',
                                           construct=f'R-ROLE::{qv}::trace-scaling')
                             else:
@@ -190,6 +195,12 @@ def check_rank_one(run, A):
                 elif sc.op == 'binop' and sc.args[0] == 'Div':
                     num, den = sc.args[1], sc.args[2]
                     okr = is_call_to(num, 'numpy.trace') and derives(call_arg(num, 0), 'covariance_matrix') and is_call_to(den, 'numpy.trace') and strip_views(call_arg(den, 0)) is s.term
+        computed_axes = [t_ for t_ in walk_terms(ret, into_mu=False) if is_call_to(t_, 'numpy.trace')
+                         and any(call_arg(t_, None, k_) is not None and const_val(call_arg(t_, None, k_)) is NOVAL for k_ in ('axis1', 'axis2'))]
+        if not okr and computed_axes:
+            run.unresolved('R-ROLE', f'{name}: rescaled by tr(Phi) / tr(a a^H)', fn.loc(getattr(computed_axes[0], 'node', None)),
+                           'the axes of a trace are computed from the rank of another array (not literals): which axes are traced is not decided')
+            continue
         run.check(okr, 'R-ROLE', f'{name}: rescaled by tr(Phi) / tr(a a^H)', fn.loc(), '', 'the rank-one matrix is not multiplied by trace(covariance) / trace(rank-one) broadcast over the last two axes',
                   construct=f'R-ROLE::{q}::trace-rescaling')
     # ATF estimate Phi_nn w
